@@ -9,7 +9,7 @@ the specification's text, a second program loads the file with the matching opti
 with the same program-text facts inside Datalog (equality joins, only counts are printed, so no writer is involved in
 observing the reader).  Representable tuples must round-trip; tuples the specification calls unrepresentable are not
 judged (outcome classes are counted as observations)."""
-import concurrent.futures as cf, json, os, random, re, shutil
+import concurrent.futures as cf, json, os, random, re, shutil, time
 from .. import build, iofmt as io, known, tlc
 from ..common import SPEC, NCPU, Result, workdir, seed, log, VERIF
 from ..evidence import finish
@@ -28,7 +28,11 @@ def writer_program(fmt, vecs, outdir):
     return "\n".join(lines) + "\n"
 
 def reader_program(fmt, vecs, outdir, dump=False):
-    lines = [io.TYPE_DECLS, ".decl res(k:number, missing:number, unexpected:number)"]
+    # pad: records the writing process never had, created first, so that a format that stores record-table indices
+    # instead of record contents cannot round-trip by coincidence of the two processes' tables
+    lines = [io.TYPE_DECLS, ".decl pad(a:R, b:RR, c:RA)", 'pad(["pad1", 1], [["pad2", 2], 3], [$S("pad3"), 4]).',
+             'pad(["pad4", 5], [nil, 6], [$N(), 7]).', ".decl res(k:number, missing:number, unexpected:number)",
+             "res(-1, 0, c) :- c = count : { pad(_, _, _) }."]
     for v in vecs:
         n = "w%d" % v["id"]; e = "e%d" % v["id"]
         vs = ", ".join("xyzuvw"[i] for i in range(len(v["types"])))
@@ -53,7 +57,9 @@ def parse_res(out):
         r[int(k)] = (int(m), int(u))
     return r
 
+NPROC = [0]
 def do_write(fmt, vecs, d, tag):
+    NPROC[0] += 1
     os.makedirs(os.path.join(d, "out"), exist_ok=True)
     p = os.path.join(d, "write_%s.dl" % tag)
     with open(p, "w") as f:
@@ -61,6 +67,7 @@ def do_write(fmt, vecs, d, tag):
     return p, io.souffle(p, out=os.path.join(d, "out"), args=ARGS)
 
 def do_read(fmt, vecs, d, tag, dump=False):
+    NPROC[0] += 1
     p = os.path.join(d, "read_%s.dl" % tag)
     with open(p, "w") as f:
         f.write(reader_program(fmt, vecs, os.path.join(d, "out"), dump))
@@ -100,9 +107,12 @@ def signature(fmt, v, o):
         if o["alt"] == "qb" and q and b:
             return "rfc4180-quote-escaping+rfc4180-record-backslash"
         return None
-    if not rfc and fmt["kind"] == "text" and "," in io.text(fmt["delim"]) and o["write"] == "ok" and o["read"] == "error" \
-            and o.get("bytes_equal") and any(ty == "A" and x["k"] == "adt" and len(io.seq(x["a"])) > 1 for ty, x in zip(types, v["t"])):
-        return "comma-delimiter-adt-args"
+    if not rfc and fmt["kind"] == "text" and "," in io.text(fmt["delim"]) and o["write"] == "ok" and o.get("bytes_equal") \
+            and (o["read"] == "error" or (o["read"] == "ok" and o["cmp"] != (0, 0))):
+        # a top-level ADT or symbol field whose text holds a ',' protected only by parentheses / by an ADT's argument list
+        for (ty, x), ft in zip(zip(types, v["t"]), io.seq(v.get("fields")) or []):
+            if ty in ("A", "s") and "," in io.text(ft) and "(" in io.text(ft):
+                return "comma-delimiter-parens"
     return None
 
 def judge(res, kf, fmt, v, o, d, files):
@@ -252,6 +262,7 @@ def run(tier, replay=None):
             res.infra_errors.append(r["error"] or "tlc failed")
         return finish(res, "model_checking")
     res.add_tlc(r)
+    log("C17: TLC done after %.0fs" % (time.time() - res.t0))
     fmts = {j["i"]: j for j in r["json"] if j.get("tag") == "FMT"}
     vecs = [j for j in r["json"] if j.get("tag") == "V"]
     r = None
@@ -297,6 +308,7 @@ def run(tier, replay=None):
                 shutil.rmtree(d, ignore_errors=True)
     finally:
         pool.shutdown()
+    res.cov["souffle_processes"] = NPROC[0]
     return finish(res, "model_checking", assumptions=[
         "program-text facts denote the tuples the specification names (string escapes of the scanner; cross-checked by the raw tab-separated bytes)",
         "floats are restricted to binary32 values whose exact decimal expansion has at most 9 significant digits, plus inf/-inf/nan/smallest subnormal as opaque tokens",
